@@ -606,6 +606,109 @@ def cases(rng, which, count):
                     fr = [("r%d" % i, "".join(rng.choice(base[j % L] + (amb if not prot else "AR-")) for j in range(max(1, Lr)))) for i in range(rng.randint(1, 2))]
                     fr = [] if rng.random() < 0.07 else fr
                     yield Case("cli_libf", [sm, "ref.fa=" + esc(fasta(fr)), "stats", "mutations", "--ref-sequence", "ref.fa"] + (["--unique"] if rng.random() < 0.3 else []), True, "cli-mutcount-file")
+            elif w in ("perseq", "gapsprof", "mutsprof"):
+                # `stats --per-sequences [--ref-sequence <row or file>] [--count-profile <file>]` (the per-sequence table),
+                # `stats gaps … --count-profile`, `stats mutations … --count-profile`.  Rows derived from a base sequence
+                # (substitutions, IUPAC codes, mixed case, gap stretches incl. at both ends); the profile file holds the
+                # per-site counts of another alignment derived from the same base - of the same length, one site longer
+                # or shorter, with a line that misses a count / has one too many, a field that is no integer, signed
+                # counts, a character name of two bytes, no character at all, no final newline, empty, absent
+                names = [r[0] for r in rows]
+                prot = rng.random() < 0.2
+                sym, amb = ("ARNDEFILPQ", "ARNDEQXx-") if prot else ("ACGT", "ACGTNRYacgtn-")
+                base = "".join(rng.choice(sym) for _ in range(L))
+
+                def derive(bs, nms):
+                    out = []
+                    for nm in nms:
+                        sq = [(rng.choice(amb) if rng.random() < 0.25 else b) for b in bs]
+                        for _ in range(rng.choice([0, 0, 1, 2])):
+                            a = rng.choice([0, 0, rng.randrange(len(sq)), len(sq) - 1])
+                            ln = rng.choice([1, 2, 3])
+                            lo = max(0, a - ln + 1) if a == len(sq) - 1 else a
+                            for j in range(lo, min(len(sq), lo + ln)):
+                                sq[j] = "-"
+                        out.append((nm, "".join(sq)))
+                    if prot:
+                        out = [(nm, q[:-1] + rng.choice("EFILPQ")) for nm, q in out]
+                    return out
+                mr = derive(base, names)
+                sm = esc(fasta(mr))
+                kind = rng.choice(["ok"] * 8 + ["len", "len", "short-row", "extra", "nan", "signed", "name2", "nochar", "nonl", "empty", "absent", "none", "none", "none"])
+                files = {}
+                pfl = []
+                if kind != "none":
+                    Lp = L + rng.choice([-1, 1]) if kind == "len" else L
+                    pbase = (base + rng.choice(sym))[:Lp] if Lp > 0 else ""
+                    pr = [q for _, q in derive(pbase, ["p%d" % i for i in range(rng.randint(1, 5))])] if Lp > 0 else []
+                    chars = []
+                    for q in pr:
+                        for ch in q:
+                            if ch not in chars:
+                                chars.append(ch)
+                    if kind == "nochar":
+                        chars = []
+                    lines = ["\t".join(["site"] + chars)]
+                    for j in range(Lp):
+                        lines.append("\t".join([str(j)] + [str(sum(1 for q in pr if q[j] == ch)) for ch in chars]))
+                    if len(lines) > 1 and chars:
+                        k = rng.randrange(1, len(lines))
+                        f = lines[k].split("\t")
+                        if kind == "short-row":
+                            lines[k] = "\t".join(f[:-1])
+                        elif kind == "extra":
+                            lines[k] = "\t".join(f + [rng.choice(["0", "7"])])
+                        elif kind == "nan":
+                            f[rng.randrange(1, len(f))] = rng.choice(["x", "", "1.5", " 1", "1 ", "--1", "0x1"])
+                            lines[k] = "\t".join(f)
+                        elif kind == "signed":
+                            i = rng.randrange(1, len(f))
+                            f[i] = rng.choice(["+", "-", "+0", "00"]) + f[i]
+                            lines[k] = "\t".join(f)
+                        elif kind == "name2":
+                            h = lines[0].split("\t")
+                            h[rng.randrange(1, len(h))] = rng.choice(["AC", "", "A "])
+                            lines[0] = "\t".join(h)
+                    txt = "\n".join(lines) + ("" if kind == "nonl" else "\n")
+                    if kind == "empty":
+                        txt = ""
+                    if kind != "absent":
+                        files["prof.tsv"] = txt.replace("\n", "|").replace("\t", "~")
+                    pfl = ["--count-profile", "prof.tsv"]
+                rfl = []
+                k = rng.random()
+                if k < 0.3:
+                    rfl = ["--ref-sequence", rng.choice(names)]
+                elif k < 0.45:
+                    Lr = L if rng.random() < 0.8 else L + rng.choice([-1, 1])
+                    fr = [("r%d" % i, "".join(rng.choice(base[j % L] + amb) for j in range(max(1, Lr)))) for i in range(rng.randint(1, 2))]
+                    fr = [] if rng.random() < 0.1 else fr
+                    files["ref.fa"] = esc(fasta(fr))
+                    rfl = ["--ref-sequence", "ref.fa"]
+                elif k < 0.5:
+                    rfl = ["--ref-sequence", "nope"]
+                fspec = ";;".join("%s=%s" % kv for kv in sorted(files.items())) or "_"
+                if w == "perseq":
+                    groups = [["--per-sequences"], pfl, rfl]
+                    rng.shuffle(groups)
+                    yield Case("cli_libf", [sm, fspec, "stats"] + [x for g in groups for x in g], True,
+                               "cli-stats-perseq" + ("-prof-" + kind if pfl else "") + ("-ref" if rfl else ""))
+                elif w == "gapsprof":
+                    if not pfl:
+                        continue
+                    other = rng.choice([["--unique"]] * 6 + [[], ["--from-start"], ["--from-end", "--unique"], ["--openning"], ["--unique", "--openning"]])
+                    groups = [pfl] + [[o] for o in other]
+                    rng.shuffle(groups)
+                    yield Case("cli_libf", [sm, fspec, "stats", "gaps"] + [x for g in groups for x in g], True,
+                               "cli-stats-gaps-prof-" + kind + "".join(sorted(other)))
+                else:
+                    if not pfl:
+                        continue
+                    un = [["--unique"]] if rng.random() < 0.85 else []
+                    groups = [pfl] + un + ([rfl] if rng.random() < 0.4 else [])
+                    rng.shuffle(groups)
+                    yield Case("cli_libf", [sm, fspec, "stats", "mutations"] + [x for g in groups for x in g], True,
+                               "cli-stats-mutations-prof-" + kind + ("-unique" if un else ""))
             elif w == "clean":
                 cut = rng.choice(["0", "0.25", "0.5", "0.75", "1", "0.1", "0.3"])
                 fl = []
